@@ -22,6 +22,9 @@ tests = [x for x in names if 'demo' in x or x.startswith(('should', 'c0', 'c1', 
 # the test functions are those preceded by #[test]
 txt = open(demo).read()
 tests = re.findall(r'#\[test\]\s*\n\+\s*(?:pub )?fn (\w+)', txt)
+# a demonstration may be an integration test file under tests/ (run with --test <stem>) instead of a unit test (--lib)
+itest = re.findall(r'^\+\+\+ b/tests/([\w\-]+)\.rs', txt, re.M)
+target = '--test %s' % itest[0] if itest else '--lib'
 res = {'seed': '%s/patch%s' % (out, n), 'tests': tests}
 clean()
 r = sh('git apply %s' % demo)
@@ -29,7 +32,7 @@ res['demo_applies'] = r.returncode == 0
 # every demonstration test must pass on the unchanged tree; with the patch at least one of them must fail
 oks, tails = [], []
 for flt in tests or ['']:
-    r = sh('cargo test --offline --lib %s 2>&1 | tail -15' % flt)
+    r = sh('cargo test --offline %s %s 2>&1 | tail -15' % (target, flt))
     oks.append('test result: ok' in r.stdout and ' 0 passed' not in r.stdout)
     tails.append(r.stdout[-400:])
 res['unchanged_plus_demo'] = bool(oks) and all(oks)
@@ -38,7 +41,7 @@ r = sh('git apply %s' % patch)
 res['patch_applies_on_demo'] = r.returncode == 0
 fails, tails = [], []
 for flt in tests or ['']:
-    r = sh('cargo test --offline --lib %s 2>&1 | tail -40' % flt)
+    r = sh('cargo test --offline %s %s 2>&1 | tail -40' % (target, flt))
     fails.append('test result: FAILED' in r.stdout or 'panicked' in r.stdout)
     tails.append(r.stdout[-900:])
 res['patch_plus_demo_fails'] = any(fails)
